@@ -35,6 +35,17 @@ COMBOS = [
     # a private generator fused into the loop that consumes it
     ("ben6-1.diff", "instrument.py", r"(?m)^            left = right$", "            left = right + 1", ["C02", "C18"]),
     ("ben6-1.diff", "instrument.py", r"datas\[last \+ 1\]\.tick == datas\[last\]\.tick", "datas[last + 1].tick >= datas[last].tick", ["C02"]),
+    # metadata helpers cut differently (field tracer, sa/rules/fieldtrace.py): defects inside the new helpers
+    ("ben16-1.diff", "metadata.py", r"kwargs\[field_name\] = _parse_all_lines_for_field\(lines, field_name\)", "kwargs.setdefault(field_name, _parse_all_lines_for_field(lines, field_name))", ["C10"]),
+    ("ben16-1.diff", "metadata.py", r"for line in lines:\n        m = regex_prog\.match\(line\)", "for line in lines[1:]:\n        m = regex_prog.match(line)", ["C10"]),
+    ("ben16-1.diff", "metadata.py", r"regex_not_match_callback=lambda: raise_\(MissingRequiredField\(field_name\)\),", "regex_not_match_callback=None,", ["C10"]),
+    ("ben16-1.diff", "metadata.py", r'_maybe_set_kwarg\(kwargs, lines, "year"\)', '_maybe_set_kwarg(dict(kwargs), lines, "year")', ["C10"]),
+    ("ben8-2.diff", "metadata.py", r"(?m)^                if required:$", "                if not required:", ["C10"]),
+    ("ben8-2.diff", "metadata.py", r"set_kwarg\(field_name, required=False\)", "set_kwarg(field_name, required=field_name.startswith('pre'))", ["C10"]),
+    ("ben8-1.diff", "metadata.py", r"return self\.processing_fn\(m\.group\(1\)\)", "return self.processing_fn(m.group(0))", ["C10"]),
+    ("ben8-1.diff", "metadata.py", r"spec = _field_parsing_specs\[field_name\]", "spec = _field_parsing_specs.get(field_name, _field_parsing_specs['name'])", ["C10"]),
+    ("ben16-2.diff", "metadata.py", r"parse_all_lines_for_field\(_field_parsing_specs\[field_name\]\)", "parse_all_lines_for_field(_field_parsing_specs['album' if field_name == 'artist' else field_name])", ["C10"]),
+    ("ben24-1.diff", "metadata.py", r"(?m)^        if regex_not_match_callback is not None:$", "        if regex_not_match_callback is None:", ["C10", "C18"]),
 ]
 
 
